@@ -171,7 +171,7 @@ def lemma(fn, arity, k, path, table, conc=None):
         s += "  %s ->\n" % c
     args = ["(ofQ O %s)" % qlit(conc[str(i)]) if str(i) in conc else "x%d" % i for i in range(arity)]
     s += "  grun %s \"%s\" [%s] = %s.\n" % (table, fn, "; ".join(args), out)
-    s += "Proof. sym_tie Fth Hasym O T A. Qed.\n"
+    s += "Proof. sym_tie Fth Hasym HQ O T A. Qed.\n"
     return s
 
 
@@ -190,7 +190,7 @@ def write_path_file(path, pid, d, k):
         f.write("Section S.\nVariable F : Type.\nVariable O : Ops F.\nVariable T : Trig F.\nVariable A : Approx F.\n"
                 "Variable toNat : F -> nat.\nVariable toN : F -> N.\n"
                 "Hypothesis Fth : field_theory (zero O) (one O) (add O) (mul O) (sub O) (opp O) (div O) (inv O) eq.\nAdd Field FF : Fth.\n"
-                "Hypothesis Hasym : LtAsym O.\n")
+                "Hypothesis Hasym : LtAsym O.\nHypothesis HQ : OfQHom O.\n")
         f.write(l)
         f.write("End S.\n")
     return True
